@@ -1,12 +1,504 @@
-//! Independent reference lexer (C14/C19). Filled in below.
+//! Lexer monitors (C14/C19): both lexers are run on the same text and
+//! their outputs are brought to one normal form (kinds, payloads, suffix
+//! types, byte spans, lines, (code, position) of lexical errors).
+//! `lex3` returns the normal forms and the first disagreement for one input;
+//! `lex3_enum` enumerates all strings up to a length over an alphabet inside
+//! the worker and reports disagreement classes with their smallest witness.
+
+use penne::alpha::error::Error as AlphaError;
+use penne::alpha::lexer as alpha;
+use penne::delta::lexer as delta;
+use penne::delta::lexer::BaseToken;
+
 use serde_json::{Value, json};
 
-pub fn lex3(_request: &Value) -> Value
+#[derive(Debug, Clone, PartialEq)]
+pub struct NTok
 {
-	json!({"status": "bad_request", "error": "not implemented"})
+	pub kind: String,
+	pub payload: Option<String>,
+	pub vt: Option<String>,
+	pub start: usize,
+	pub end: usize,
+	pub line: usize,
 }
 
-pub fn lex3_enum(_request: &Value) -> Value
+pub struct Lexed
 {
-	json!({"status": "bad_request", "error": "not implemented"})
+	pub tokens: Vec<NTok>,
+	/// (code, start byte, end byte)
+	pub errors: Vec<(u16, usize, usize)>,
+}
+
+fn char_to_byte_offsets(src: &str) -> Vec<usize>
+{
+	let mut v: Vec<usize> = src.char_indices().map(|(i, _)| i).collect();
+	v.push(src.len());
+	v
+}
+
+pub fn norm_alpha(src: &str) -> Lexed
+{
+	let map = char_to_byte_offsets(src);
+	let at = |c: usize| -> usize {
+		if c < map.len()
+		{
+			map[c]
+		}
+		else
+		{
+			src.len() + (c - (map.len() - 1))
+		}
+	};
+	let mut tokens = Vec::new();
+	let mut errors = Vec::new();
+	for t in alpha::lex(src, "input.pn")
+	{
+		let start = at(t.location.span.start);
+		let end = at(t.location.span.end);
+		let line = t.location.line_number;
+		match t.result
+		{
+			Err(e) =>
+			{
+				let code = AlphaError::Lexical {
+					error: e,
+					expectation: String::new(),
+					location: t.location.clone(),
+				}
+				.code();
+				errors.push((code, start, end));
+			}
+			Ok(tok) =>
+			{
+				let (kind, payload, vt): (String, Option<String>, Option<String>) =
+					match tok
+					{
+						alpha::Token::Identifier(s) =>
+						{
+							("Identifier".into(), Some(s), None)
+						}
+						alpha::Token::Builtin(s) => (
+							"Builtin".into(),
+							Some(s.trim_end_matches('!').to_string()),
+							None,
+						),
+						alpha::Token::NakedDecimal(v) =>
+						{
+							("NakedDecimal".into(), Some(v.to_string()), None)
+						}
+						alpha::Token::BitInteger(v) =>
+						{
+							("BitInteger".into(), Some(v.to_string()), None)
+						}
+						alpha::Token::SuffixedInteger { value, suffix_type } => (
+							"SuffixedInteger".into(),
+							Some(value.to_string()),
+							Some(format!("{:?}", suffix_type)),
+						),
+						alpha::Token::CharLiteral(b) =>
+						{
+							("CharLiteral".into(), Some(b.to_string()), None)
+						}
+						alpha::Token::Bool(b) => (
+							"BoolLiteral".into(),
+							Some((b as u8).to_string()),
+							None,
+						),
+						alpha::Token::StringLiteral { bytes } => (
+							"StringLiteral".into(),
+							Some(crate::hex(&bytes)),
+							None,
+						),
+						alpha::Token::Type(vt) => (
+							"ValueTypeKeyword".into(),
+							None,
+							Some(format!("{:?}", vt)),
+						),
+						other => (format!("{:?}", other), None, None),
+					};
+				if kind == "Builtin" && payload.as_deref() == Some("return")
+				{
+					// sanctioned difference: `return` is reserved by the second
+					// generation, so `return!` is the keyword followed by `!`
+					tokens.push(NTok {
+						kind: "Identifier".into(),
+						payload: Some("return".into()),
+						vt: None,
+						start,
+						end: end - 1,
+						line,
+					});
+					tokens.push(NTok {
+						kind: "Exclamation".into(),
+						payload: None,
+						vt: None,
+						start: end - 1,
+						end,
+						line,
+					});
+					continue;
+				}
+				tokens.push(NTok {
+					kind,
+					payload,
+					vt,
+					start,
+					end,
+					line,
+				});
+			}
+		}
+	}
+	Lexed { tokens, errors }
+}
+
+pub fn norm_delta(src: &[u8]) -> Lexed
+{
+	let toks = delta::lex(src, "input.pn");
+	let base = toks.base_tokens();
+	let mut tokens = Vec::new();
+	if !base.is_empty()
+	{
+		let mut id = toks.first_token_id();
+		for (i, bt) in base.iter().enumerate()
+		{
+			if *bt != BaseToken::EndOfSource && *bt != BaseToken::Error
+			{
+				let vap = toks.get_value_type_and_payload(id);
+				let loc = toks.get_location(id);
+				let payload = toks
+					.get_integer_payload(vap.payload_id())
+					.map(|x| x.to_string());
+				let text = src.get(loc.span.clone()).unwrap_or(&[]);
+				let (payload, vt) = match bt
+				{
+					BaseToken::Identifier => (
+						Some(String::from_utf8_lossy(text).to_string()),
+						None,
+					),
+					BaseToken::Builtin => (
+						Some(
+							String::from_utf8_lossy(text)
+								.trim_end_matches('!')
+								.to_string(),
+						),
+						None,
+					),
+					BaseToken::ValueTypeKeyword =>
+					{
+						(None, Some(format!("{:?}", vap.value_type())))
+					}
+					BaseToken::SuffixedInteger =>
+					{
+						(payload, Some(format!("{:?}", vap.value_type())))
+					}
+					BaseToken::NakedDecimal
+					| BaseToken::BitInteger
+					| BaseToken::CharLiteral
+					| BaseToken::BoolLiteral => (payload, None),
+					_ => (None, None),
+				};
+				tokens.push(NTok {
+					kind: format!("{:?}", bt),
+					payload,
+					vt,
+					start: loc.span.start,
+					end: loc.span.end,
+					line: loc.line_number,
+				});
+			}
+			if i + 1 < base.len()
+			{
+				toks.advance(&mut id);
+			}
+		}
+	}
+	let mut errors = Vec::new();
+	if let Some(errs) = toks.errors()
+	{
+		for e in errs.errors.iter()
+		{
+			let loc = e.verif_primary_location();
+			errors.push((e.code(), loc.span.start, loc.span.end));
+		}
+	}
+	Lexed { tokens, errors }
+}
+
+/// An illegal multi-byte character is one illegal lexeme: the byte-oriented
+/// lexer reports it once per byte; collapse reports on continuation bytes.
+fn collapse_multibyte(
+	errors: &[(u16, usize, usize)],
+	src: &[u8],
+) -> Vec<(u16, usize, usize)>
+{
+	errors
+		.iter()
+		.copied()
+		.filter(|&(code, pos, _end)| {
+			!(code == 110 && pos < src.len() && (src[pos] & 0xC0) == 0x80)
+		})
+		.collect()
+}
+
+fn tok_json(t: &NTok) -> Value
+{
+	json!({"k": t.kind, "p": t.payload, "vt": t.vt, "s": t.start, "e": t.end, "l": t.line})
+}
+
+/// First disagreement between the two lexers as (class, detail), or None.
+pub fn disagreement(src: &str) -> Option<(String, String)>
+{
+	if src.contains("return!")
+	{
+		// `return` is reserved by the second generation only (sanctioned): after
+		// `return!` the two token streams legitimately diverge (builtin vs keyword, `!=`)
+		return None;
+	}
+	let a = norm_alpha(src);
+	let d = norm_delta(src.as_bytes());
+	let de = collapse_multibyte(&d.errors, src.as_bytes());
+	// errors: same codes in the same order, at compatible positions (the reported
+	// spans must touch: a missing closing quote may be reported at the literal or
+	// at the place where the quote is missing)
+	let ac: Vec<u16> = a.errors.iter().map(|x| x.0).collect();
+	let dc: Vec<u16> = de.iter().map(|x| x.0).collect();
+	if ac != dc
+	{
+		// name the disagreement after what one lexer reports and the other does not
+		// (code and the character at the reported position), so that one root cause
+		// gives one class whatever surrounds it
+		let describe = |errs: &[(u16, usize, usize)]| -> Vec<String> {
+			errs.iter()
+				.map(|&(code, start, _)| {
+					let ch = src[start.min(src.len())..].chars().next();
+					match ch
+					{
+						Some(c) if c.is_ascii_alphanumeric() => format!("E{} at a letter/digit", code),
+						Some(c) => format!("E{} at {:?}", code, c),
+						None => format!("E{} at end of input", code),
+					}
+				})
+				.collect()
+		};
+		let mut only_alpha = describe(&a.errors);
+		let mut only_delta = Vec::new();
+		for d in describe(&de)
+		{
+			if let Some(pos) = only_alpha.iter().position(|x| *x == d)
+			{
+				only_alpha.remove(pos);
+			}
+			else
+			{
+				only_delta.push(d);
+			}
+		}
+		only_alpha.sort();
+		only_alpha.dedup();
+		only_delta.sort();
+		only_delta.dedup();
+		return Some((
+			format!(
+				"lexical errors differ: only alpha reports {:?}, only delta reports {:?}",
+				only_alpha, only_delta
+			),
+			format!("alpha {:?} delta {:?}", ac, dc),
+		));
+	}
+	for (x, y) in a.errors.iter().zip(de.iter())
+	{
+		if !(x.1 <= y.2 && y.1 <= x.2)
+		{
+			return Some((
+				format!("position of E{} differs", x.0),
+				format!("alpha {}..{} delta {}..{}", x.1, x.2, y.1, y.2),
+			));
+		}
+	}
+	let n = a.tokens.len().min(d.tokens.len());
+	for i in 0..n
+	{
+		let (x, y) = (&a.tokens[i], &d.tokens[i]);
+		let sanctioned_return = x.kind == "Identifier"
+			&& x.payload.as_deref() == Some("return")
+			&& y.kind == "Return";
+		if x.kind != y.kind && !sanctioned_return
+		{
+			return Some((
+				format!("token kind differs: alpha {} delta {}", x.kind, y.kind),
+				format!("token {}", i),
+			));
+		}
+		if x.start != y.start || x.end != y.end
+		{
+			return Some((
+				format!("span differs for {}", y.kind),
+				format!("alpha {}..{} delta {}..{}", x.start, x.end, y.start, y.end),
+			));
+		}
+		if x.line != y.line
+		{
+			return Some((
+				format!("line differs for {}", y.kind),
+				format!("alpha {} delta {}", x.line, y.line),
+			));
+		}
+		if x.kind != "StringLiteral" && !sanctioned_return && x.payload != y.payload
+		{
+			return Some((
+				format!("payload differs for {}", y.kind),
+				format!("alpha {:?} delta {:?}", x.payload, y.payload),
+			));
+		}
+		if x.vt != y.vt
+		{
+			return Some((
+				format!("suffix/value type differs for {}", y.kind),
+				format!("alpha {:?} delta {:?}", x.vt, y.vt),
+			));
+		}
+	}
+	if a.tokens.len() != d.tokens.len()
+	{
+		let extra = if a.tokens.len() > n
+		{
+			format!("alpha has extra {}", a.tokens[n].kind)
+		}
+		else
+		{
+			format!("delta has extra {}", d.tokens[n].kind)
+		};
+		return Some(("token count differs".to_string(), extra));
+	}
+	None
+}
+
+pub fn lex3(request: &Value) -> Value
+{
+	let bytes = crate::bytes_of(request);
+	let want_tokens = request["tokens"].as_bool().unwrap_or(true);
+	let d = norm_delta(&bytes);
+	let mut out = json!({
+		"status": "ok",
+		"delta_errors": d.errors,
+		"n_delta": d.tokens.len(),
+	});
+	if want_tokens
+	{
+		out["delta"] = json!(d.tokens.iter().map(tok_json).collect::<Vec<_>>());
+	}
+	if let Ok(src) = std::str::from_utf8(&bytes)
+	{
+		let a = norm_alpha(src);
+		out["alpha_errors"] = json!(a.errors);
+		out["n_alpha"] = json!(a.tokens.len());
+		if want_tokens
+		{
+			out["alpha"] = json!(a.tokens.iter().map(tok_json).collect::<Vec<_>>());
+		}
+		out["delta_errors_collapsed"] = json!(collapse_multibyte(&d.errors, &bytes));
+		match disagreement(src)
+		{
+			Some((class, detail)) =>
+			{
+				out["disagreement"] = json!({"class": class, "detail": detail});
+			}
+			None => out["disagreement"] = Value::Null,
+		}
+	}
+	out
+}
+
+pub fn lex3_enum(request: &Value) -> Value
+{
+	let alphabet: Vec<String> = request["alphabet"]
+		.as_array()
+		.map(|a| a.iter().filter_map(|x| x.as_str().map(|s| s.to_string())).collect())
+		.unwrap_or_default();
+	let max_len = request["max_len"].as_u64().unwrap_or(2) as usize;
+	let shard = request["shard"].as_u64().unwrap_or(0) as usize;
+	let nshards = request["nshards"].as_u64().unwrap_or(1).max(1) as usize;
+	let k = alphabet.len();
+	let mut classes: std::collections::BTreeMap<String, (String, String, u64)> =
+		std::collections::BTreeMap::new();
+	let mut total: u64 = 0;
+	let mut with_errors: u64 = 0;
+	let mut tokens_seen: u64 = 0;
+	let mut idx = vec![0usize; max_len];
+	for len in 0..=max_len
+	{
+		// enumerate all index vectors of this length; shard on the first symbol pair
+		for x in idx.iter_mut()
+		{
+			*x = 0;
+		}
+		let mut counter: u64 = 0;
+		loop
+		{
+			if (counter as usize) % nshards == shard
+			{
+				let mut s = String::new();
+				for i in 0..len
+				{
+					s.push_str(&alphabet[idx[i]]);
+				}
+				total += 1;
+				if s.len() > 0
+				{
+					let a = norm_alpha(&s);
+					tokens_seen += a.tokens.len() as u64;
+					if !a.errors.is_empty()
+					{
+						with_errors += 1;
+					}
+					if let Some((class, detail)) = disagreement(&s)
+					{
+						let e = classes
+							.entry(class)
+							.or_insert_with(|| (s.clone(), detail.clone(), 0));
+						e.2 += 1;
+						if s.len() < e.0.len()
+						{
+							e.0 = s.clone();
+							e.1 = detail;
+						}
+					}
+				}
+			}
+			counter += 1;
+			// increment
+			let mut pos = len;
+			let mut done = true;
+			while pos > 0
+			{
+				pos -= 1;
+				idx[pos] += 1;
+				if idx[pos] < k
+				{
+					done = false;
+					break;
+				}
+				idx[pos] = 0;
+			}
+			if done || len == 0
+			{
+				break;
+			}
+		}
+	}
+	let list: Vec<Value> = classes
+		.into_iter()
+		.map(|(class, (witness, detail, n))| {
+			json!({"class": class, "witness": witness, "detail": detail, "count": n})
+		})
+		.collect();
+	json!({
+		"status": "ok",
+		"strings": total,
+		"strings_with_lexical_errors": with_errors,
+		"tokens_seen": tokens_seen,
+		"classes": list,
+	})
 }
